@@ -366,9 +366,10 @@ def append(ex, ins, args):
         a_in = vc.declare(ex.nm(ins['n'] + '$inpl'), 'Arr:' + es)
         soff = '(s.off %s)' % s.term
         toff = '(s.off %s)' % t.term
-        vc.assume_forall(ex.reach, lambda i, a_in=a_in, A=A, T=T, ls=ls, n=n, soff=soff, toff=toff:
-                         '(= (select %s %s) (ite (and (<= (+ %s %s) %s) (< %s (+ %s %s))) (select %s (+ %s (- %s (+ %s %s)))) (select %s %s)))'
-                         % (a_in, i, soff, ls, i, i, soff, n, T, toff, i, soff, ls, A, i))
+        # relative index j (array index soff + j): the tail [ls, n) receives t, everything else is unchanged
+        vc.assume_forall(ex.reach, lambda j, a_in=a_in, A=A, T=T, ls=ls, n=n, soff=soff, toff=toff:
+                         '(= (select %s (+ %s %s)) (ite (and (<= %s %s) (< %s %s)) (select %s (+ %s (- %s %s))) (select %s (+ %s %s))))'
+                         % (a_in, soff, j, ls, j, j, n, T, toff, j, ls, A, soff, j))
         a_new = vc.declare(ex.nm(ins['n'] + '$fresh'), 'Arr:' + es)
         vc.assume_forall(ex.reach, lambda i, a_new=a_new, A=A, T=T, ls=ls, n=n, soff=soff, toff=toff:
                          '(=> (and (<= 0 %s) (< %s %s)) (= (select %s %s) (ite (< %s %s) (select %s (+ %s %s)) (select %s (+ %s (- %s %s))))))'
@@ -400,9 +401,9 @@ def copy_(ex, ins, args):
     S = '(select %s (s.arr %s))' % (E, s.term)
     a2 = vc.declare(ex.nm('copy$dst'), 'Arr:' + es)
     doff, soff = '(s.off %s)' % d.term, '(s.off %s)' % s.term
-    vc.assume_forall(ex.reach, lambda i, a2=a2, D=D, S=S, n=n, doff=doff, soff=soff:
-                     '(= (select %s %s) (ite (and (<= %s %s) (< %s (+ %s %s))) (select %s (+ %s (- %s %s))) (select %s %s)))'
-                     % (a2, i, doff, i, i, doff, n, S, soff, i, doff, D, i))
+    vc.assume_forall(ex.reach, lambda j, a2=a2, D=D, S=S, n=n, doff=doff, soff=soff:
+                     '(= (select %s (+ %s %s)) (ite (and (<= 0 %s) (< %s %s)) (select %s (+ %s %s)) (select %s (+ %s %s))))'
+                     % (a2, doff, j, j, j, n, S, soff, j, D, doff, j))
     ex.st.set(hn, vc.define(hn, hs, '(store %s (s.arr %s) %s)' % (E, d.term, a2)))
     top = ex.top
     if top.contract is not None and top.contract.assigns is not None:
